@@ -16,7 +16,7 @@ import (
 func init() {
 	Registry["C09"] = C09
 	Metas["C09"] = Meta{
-		Explanation: "Decides the clauses of C09 by role evaluation over all sign regions of the TTL argument and of the default: (X1) the TTL computation of each cache implementation returns now+d for d > 0; for d == DefaultExpiration it substitutes the default loaded from the settings during this very call (one load, the same value is tested and added) and returns now+D for D > 0 and 0 (never expires) otherwise; every other d <= 0 yields 0; no other comparison is involved; (X2) every item a method stores carries the expiration computed in that call from that method's own TTL argument (Set / GetAndSet / GetAndRefresh on a live entry / Compute and the storing branches of GetOrSet and GetOrCompute re-arm; SetDefault and SetForever use the documented sentinels), while Get*, Range, Items and the hit branches of GetOrSet / GetOrCompute leave the stored item untouched - as rows of the reviewed reference table; (X3) GetWithExpiration reports Unix(0, e) exactly when e > 0 and the zero time otherwise, GetWithTTL reports Until(Unix(0, e)) exactly when e > 0 and NoExpiration otherwise, both only for an entry that tested unexpired; (X4) settings flow: SetDefaultExpiration stores its argument, the option functions write their own config field from their own argument, the constructor stores the normalised config's default into the setting (never a sibling field), option functions and the NewDefault family write their duration arguments on every path (no value is silently replaced by a default), and NewDefault passes its two durations to the fields of the same name; (X5) a stored (value, deadline) pair is replaced as a whole and a published entry is never written again, so a lock-free reader reports the instant that belongs to the value it reports (restated from C03/C04.P2). NOT decided: arithmetic at the int64 / time.Time boundaries, wall-clock vs monotonic readings.",
+		Explanation: "Decides the clauses of C09 by role evaluation over all sign regions of the TTL argument and of the default: (X1) the TTL computation of each cache implementation returns now+d for d > 0; for d == DefaultExpiration it substitutes the default loaded from the settings during this very call (one load, the same value is tested and added) and returns now+D for D > 0 and 0 (never expires) otherwise; every other d <= 0 yields 0; no other comparison is involved; (X2) every item a method stores carries the expiration computed in that call from that method's own TTL argument (Set / GetAndSet / GetAndRefresh on a live entry / Compute and the storing branches of GetOrSet and GetOrCompute re-arm; SetDefault and SetForever use the documented sentinels), while Get*, Range, Items and the hit branches of GetOrSet / GetOrCompute leave the stored item untouched - as rows of the reviewed reference table; (X3) GetWithExpiration reports Unix(0, e) exactly when e > 0 and the zero time otherwise, GetWithTTL reports Until(Unix(0, e)) exactly when e > 0 and NoExpiration otherwise, both only for an entry that tested unexpired; (X4) settings flow: SetDefaultExpiration stores its argument, the option functions write their own config field from their own argument, the constructor stores the normalised config's default into the setting (never a sibling field), option functions and the NewDefault family write their duration arguments on every path (no value is silently replaced by a default), and NewDefault passes its two durations to the fields of the same name; (X5) a stored (value, deadline) pair is replaced as a whole and a published entry is never written again, so a lock-free reader reports the instant that belongs to the value it reports (restated from C03/C04.P2); (X6) no duration passes through an integer type narrower than 64 bits on some supported platform (int, uint, int32, ...) on its way back into a duration - decided for every conversion in the cache package with the sizes of the 386 target, by forward value flow through arithmetic, phis and helpers that return their argument. NOT decided: arithmetic at the int64 / time.Time boundaries, wall-clock vs monotonic readings.",
 		Rule:        "one obligation per (rule, function, partition or table row); non-trivial = decided from evaluated abstract paths",
 		Assumptions: []string{"time.Now / Time.Add / UnixNano / time.Unix / time.Until behave as documented"},
 	}
@@ -185,7 +185,129 @@ func C09(r *Run) *core.Report {
 		n5 += borrow(rep, tmp, "C09.X5", "C03.P2", "C04.P2")
 	}
 	rep.MinCount("C09.X5", "premise obligations (stored pairs are replaced whole)", n5, 3)
+	c09X6(r, rep, "C09.X6")
 	return rep
+}
+
+// c09X6: a duration does not pass through an integer type that is narrower than 64 bits on some supported platform
+// (int, uint, uintptr, int32, ...) on its way back into a duration: time.Duration(clamp(int(d), 0)) is the identity on
+// amd64 and truncates nanosecond counts above ~2.1 s on 32-bit platforms (an interval of 3 s becomes 0, a negative one
+// positive). Decided for every conversion in the cache package by forward value flow (arithmetic, phis, helper calls
+// that return their argument); the sizes are those of the 386 target whatever the host.
+func c09X6(r *Run, rep *core.Report, rule string) {
+	sizes := types.SizesFor("gc", "386")
+	isDuration := func(t types.Type) bool { return typeName(t) == "time.Duration" || typeName(t) == "Duration" }
+	narrow := func(t types.Type) bool {
+		b, ok := t.Underlying().(*types.Basic)
+		return ok && b.Info()&types.IsInteger != 0 && sizes.Sizeof(t) < 8
+	}
+	nConv := 0
+	for _, f := range r.P.Funcs {
+		if f.Pkg != r.P.Cache || f.Blocks == nil {
+			continue
+		}
+		core.Instrs(f, func(in ssa.Instruction) {
+			cv, ok := in.(*ssa.Convert)
+			if !ok {
+				return
+			}
+			if isDuration(cv.Type()) || isDuration(cv.X.Type()) {
+				nConv++
+			}
+			if !isDuration(cv.X.Type()) || !narrow(cv.Type()) {
+				return
+			}
+			// forward flow of the narrowed value
+			seen := map[ssa.Value]bool{}
+			var back ssa.Instruction
+			var flow func(v ssa.Value, depth int)
+			flow = func(v ssa.Value, depth int) {
+				if v == nil || seen[v] || depth > 8 || back != nil || v.Referrers() == nil {
+					return
+				}
+				seen[v] = true
+				for _, ref := range *v.Referrers() {
+					switch y := ref.(type) {
+					case *ssa.Convert:
+						if isDuration(y.Type()) {
+							back = y
+							return
+						}
+						flow(y, depth+1)
+					case *ssa.BinOp:
+						flow(y, depth+1)
+					case *ssa.Phi:
+						flow(y, depth+1)
+					case *ssa.ChangeType:
+						flow(y, depth+1)
+					case *ssa.Call:
+						cal := core.Callee(y)
+						if cal == nil || cal.Blocks == nil {
+							continue
+						}
+						for ai, a := range y.Call.Args {
+							if a != v || ai >= len(cal.Params) {
+								continue
+							}
+							// does the callee hand the parameter back?
+							prm := cal.Params[ai]
+							returnsIt := false
+							core.Instrs(cal, func(in2 ssa.Instruction) {
+								ret, isRet := in2.(*ssa.Return)
+								if !isRet {
+									return
+								}
+								for _, res := range ret.Results {
+									var reach func(x ssa.Value, d int) bool
+									vis := map[ssa.Value]bool{}
+									reach = func(x ssa.Value, d int) bool {
+										x = core.StripConv(x)
+										if x == ssa.Value(prm) {
+											return true
+										}
+										if vis[x] || d > 6 {
+											return false
+										}
+										vis[x] = true
+										switch z := x.(type) {
+										case *ssa.Phi:
+											for _, e := range z.Edges {
+												if reach(e, d+1) {
+													return true
+												}
+											}
+										case *ssa.BinOp:
+											return reach(z.X, d+1) || reach(z.Y, d+1)
+										}
+										return false
+									}
+									if reach(res, 0) {
+										returnsIt = true
+									}
+								}
+							})
+							if returnsIt {
+								flow(y, depth+1)
+							}
+						}
+					}
+				}
+			}
+			flow(cv, 0)
+			cons := fmt.Sprintf("%s duration through %s", fn(f), typeName(cv.Type()))
+			rep.Check(back == nil, rule, cons, r.P.InstrPos(in), "the narrowed value does not come back as a duration",
+				"a time.Duration is converted to "+typeName(cv.Type())+" (32 bits on 32-bit platforms) and the result flows back into a time.Duration: nanosecond counts above about 2.1 s are truncated there - an interval or TTL changes its value, possibly its sign")
+		})
+	}
+	_ = nConv
+	nFn := 0
+	for _, f := range r.P.Funcs {
+		if f.Pkg == r.P.Cache && f.Blocks != nil {
+			nFn++
+		}
+	}
+	// (today's tree has no such conversion at all: the guard is on what was scanned; seeded/C15-* holds the positive example)
+	rep.MinCount(rule, "functions of the cache package scanned for narrowing conversions of durations", nFn, 40)
 }
 
 func involves(t *sym.Term, op, k string) bool {
